@@ -817,6 +817,130 @@ theorem spec_encoding (hrec : RecOK rec B) (hfx : e.fx = Fixes.all) (hl : st.len
   wq
   spec_close
 
+theorem spec_exprC (hrec : RecOK rec B) (hfx : e.fx = Fixes.all) (hl : st.len ≤ e.n) (hp : st.pos ≤ e.n)
+    (hs : Stop e st.len) (hn : 8 * e.n + 5 ≤ B + 1 + 8 * st.pos) (hd : 1 ≤ st.pos) (c0 c1 : UInt8)
+    (h1 : c1.toNat = 0 ∨ (st.pos + 1 ≤ st.len ∧ (c1.toNat = 46 ∨ c1.toNat = 64)) ∨ st.pos + 1 < st.len) :
+    Tri e st (bExprC rec c0 c1) (PostG 1 true e st) := by
+  have := exN_le st
+  unfold bExprC
+  wq
+  post_close
+
+attribute [local irreducible] bExprC
+
+macro_rules | `(tactic| wq_helper) => `(tactic| first | use_helper (spec_exprC (by assumption) (by assumption) (by assumption) (by assumption) (by assumption) (by omega) (by omega) _ _ (by assumption)) | fail)
+
+macro_rules | `(tactic| wq_helper) => `(tactic| first | (exfalso; exact nw_dead (by assumption) (by omega) (by omega)) | fail)
+
+theorem spec_exprB (hrec : RecOK rec B) (hfx : e.fx = Fixes.all) (hl : st.len ≤ e.n) (hp : st.pos ≤ e.n)
+    (hs : Stop e st.len) (hn : 8 * e.n + 5 ≤ B + 1 + 8 * st.pos) (hd : 1 ≤ st.pos) (c0 c1 : UInt8)
+    (h1 : c1.toNat = 0 ∨ (st.pos + 1 ≤ st.len ∧ (c1.toNat = 46 ∨ c1.toNat = 64)) ∨ st.pos + 1 < st.len)
+    (hops : ((ops.any fun o => o.1 == c0 && o.2.1 == c1) && !(c0 == 99 || c1 == 118)) = false) :
+    Tri e st (bExprB rec c0 c1) (PostG 1 true e st) := by
+  have := exN_le st
+  unfold bExprB
+  wq
+  post_close
+
+attribute [local irreducible] bExprB
+
+theorem hops_of {a b : Bool} (h : a = true → ¬b = false) : (a && !b) = false := by
+  cases a <;> cases b <;> simp_all
+
+macro_rules | `(tactic| wq_helper) => `(tactic| first | use_helper (spec_exprB (by assumption) (by assumption) (by assumption) (by assumption) (by assumption) (by omega) (by omega) _ _ (by assumption) (by first | assumption | exact hops_of (by assumption))) | fail)
+
+macro "unary_step" : tactic => `(tactic|
+  (refine s_findUnary _ (by assumption) (by assumption) (by assumption) ?hple ?hexp ?hN ?hS
+   case hple => omega
+   case hexp => assumption
+   case' hN => skip
+   case' hS => intros))
+macro_rules | `(tactic| wq_helper) => `(tactic| first | unary_step | fail)
+
+theorem spec_exprA (hrec : RecOK rec B) (hfx : e.fx = Fixes.all) (hl : st.len ≤ e.n) (hp : st.pos ≤ e.n)
+    (hs : Stop e st.len) (hn : 8 * e.n + 5 ≤ B + 1 + 8 * st.pos) (hd : 1 ≤ st.pos) (exp : Nat) (c0 c1 : UInt8)
+    (hple : st.pos ≤ st.len)
+    (hexp : exp = st.pos ∨ (exp + 2 = st.pos ∧ e.rd exp = some 103))
+    (h1 : c1.toNat = 0 ∨ (st.pos + 1 ≤ st.len ∧ (c1.toNat = 46 ∨ c1.toNat = 64)) ∨ st.pos + 1 < st.len) :
+    Tri e st (bExprA rec exp c0 c1) (PostG 1 true e st) := by
+  have := exN_le st
+  unfold bExprA
+  wq
+  post_close
+
+attribute [local irreducible] bExprA
+
+theorem gs_fact {e : Env} {st : St} (c : UInt8) (h : st.pos + 0 ≤ st.len → e.rd (st.pos + 0) = some c)
+    (hc : c.toNat = 103) (hle : st.pos ≤ st.len) : e.rd st.pos = some 103 := by
+  have := toNat_eq_lit (n := 103) hc (by omega)
+  subst this
+  exact h (by omega)
+
+macro_rules | `(tactic| wq_helper) => `(tactic| first | use_helper (spec_exprA (by assumption) (by assumption) (by assumption) (by assumption) (by assumption) (by omega) (by omega) _ _ _ (by omega) (by first | (left; omega) | (right; exact ⟨by omega, gs_fact _ (by assumption) (by omega) (by omega)⟩)) (by assumption)) | fail)
+
+theorem spec_expression (hrec : RecOK rec B) (hfx : e.fx = Fixes.all) (hl : st.len ≤ e.n) (hp : st.pos ≤ e.n)
+    (hs : Stop e st.len) (hn : Need .expression e st (B + 1)) (hd : delta .expression ≤ st.pos) :
+    Tri e st (bExpression rec) (Post .expression e st) := by
+  simp only [Need, rank] at hn
+  simp only [delta] at hd
+  have := exN_le st
+  unfold bExpression
+  wq
+  spec_close
+
+
+/-- every grammar function body satisfies its summary if the recursive calls do (with one unit less fuel) -/
+theorem body_spec (hrec : RecOK rec B) (f : Fn) (hfx : e.fx = Fixes.all) (hl : st.len ≤ e.n) (hp : st.pos ≤ e.n)
+    (hs : Stop e st.len) (hn : Need f e st (B + 1)) (hd : delta f ≤ st.pos) :
+    Tri e st (body rec f) (Post f e st) := by
+  cases f with
+  | encoding => exact spec_encoding hrec hfx hl hp hs hn hd
+  | encLoop => exact spec_encLoop hrec hfx hl hp hs hn hd
+  | name => exact spec_name hrec hfx hl hp hs hn hd
+  | localName => exact spec_localName hrec hfx hl hp hs hn hd
+  | nestedName => exact spec_nestedName hrec hfx hl hp hs hn hd
+  | nestedLoop => exact spec_nestedLoop hrec hfx hl hp hs hn hd
+  | unqualifiedName => exact spec_unqualifiedName hrec hfx hl hp hs hn hd
+  | ulLoop => exact spec_ulLoop hrec hfx hl hp hs hn hd
+  | operatorName => exact spec_operatorName hrec hfx hl hp hs hn hd
+  | ctorDtorName => exact spec_ctorDtorName hrec hfx hl hp hs hn hd
+  | type => exact spec_type hrec hfx hl hp hs hn hd
+  | typeLoop ret => exact spec_typeLoop ret hrec hfx hl hp hs hn hd
+  | functionType => exact spec_functionType hrec hfx hl hp hs hn hd
+  | ftLoop c => exact spec_ftLoop c hrec hfx hl hp hs hn hd
+  | arrayType => exact spec_arrayType hrec hfx hl hp hs hn hd
+  | ptrToMember => exact spec_ptrToMember hrec hfx hl hp hs hn hd
+  | decltype => exact spec_decltype hrec hfx hl hp hs hn hd
+  | vectorType => exact spec_vectorType hrec hfx hl hp hs hn hd
+  | templateArgs => exact spec_templateArgs hrec hfx hl hp hs hn hd
+  | argLoop => exact spec_argLoop hrec hfx hl hp hs hn hd
+  | templateArg => exact spec_templateArg hrec hfx hl hp hs hn hd
+  | expression => exact spec_expression hrec hfx hl hp hs hn hd
+  | exprPrimary => exact spec_exprPrimary hrec hfx hl hp hs hn hd
+  | exprList => exact spec_exprList hrec hfx hl hp hs hn hd
+  | exprListLoop => exact spec_exprListLoop hrec hfx hl hp hs hn hd
+  | initializer => exact spec_initializer hrec hfx hl hp hs hn hd
+  | exprLoop => exact spec_exprLoop hrec hfx hl hp hs hn hd
+  | unresolvedName => exact spec_unresolvedName hrec hfx hl hp hs hn hd
+  | unresLoop => exact spec_unresLoop hrec hfx hl hp hs hn hd
+  | baseUnresolvedName => exact spec_baseUnresolvedName hrec hfx hl hp hs hn hd
+  | destructorName => exact spec_destructorName hrec hfx hl hp hs hn hd
+  | unresolvedType => exact spec_unresolvedType hrec hfx hl hp hs hn hd
+  | simpleId => exact spec_simpleId hrec hfx hl hp hs hn hd
+  | specialName => exact spec_specialName hrec hfx hl hp hs hn hd
+
 end specs
+
+/-- **Main lemma**: with fuel `n`, every grammar function whose budget fits (`Need f e st n`) returns normally
+    and satisfies its summary `Post` — no crash, no out-of-fuel. -/
+theorem run_spec : ∀ n, RecOK (run n) n
+  | 0 => by
+    intro g e st _ _ hp _ hn _
+    exfalso
+    simp only [Need] at hn
+    omega
+  | n + 1 => by
+    intro g e st hfx hl hp hs hn hd
+    exact body_spec (run_spec n) g hfx hl hp hs hn hd
 
 end Uft.Demangle
